@@ -20,7 +20,7 @@ class C20(diffprop.Spec):
                   "are not exercised); the residual window between the callback's check and the delivery is inherent and stated at the check instant.")
     rule = ("per case: read- or write-idle handler with idle 1-6 (virtual seconds) in a real pipeline; 3-16 ops at non-decreasing times: activation, read/write with downstream processing delay "
             "0-2, firing of the due timer at its deadline or up to 2 late (1/6 with a panicking event handler, 1/6 with inactive arriving inside the callback), inactive; "
-            "non-trivial = an op that delivered an event or a firing; distinct by full line")
+            "non-trivial = an op that delivered an event or a firing; distinct by full line; activation in which the handler behind the idle handler closes the channel (1/6) or panics (1/6); writes whose downstream handler panics (1/5); 1/3 of the reads/writes let the due timer fire while the message is being processed (up to idle+2 ticks); a final report if an active handler has no timer pending")
     assumptions = ("the runtime runs a timer callback no earlier than its deadline", "exception handlers do not panic")
     modelled_not_verified = ("time.AfterFunc / Timer.Reset / Timer.Stop", "sync.RWMutex")
 
